@@ -200,6 +200,7 @@ class Ctx:
     c = z3.Int(name)
     self.vars[name] = ("int", c)
     self._add(z3.And(c >= lo, c <= hi))
+    self.__dict__.setdefault("int_ranges", {})[name] = (int(lo), int(hi))
     return SymInt(c)
 
   def split(self, name, lo, hi):
@@ -402,19 +403,11 @@ class Ctx:
         if v is None: raise EngineError("prefix desynchronised (expected value split)")
       else:
         v = None
-        if attempt < 2:
-          # boundary values first: the largest, then the smallest feasible value (table look-ups, ranges and slices
-          # go wrong at their ends) - a short optimisation query over the integer constraints, any model as fall-back
-          try:
-            opt = z3.Optimize(); opt.set("timeout", 1500)
-            for e, c in self.pc:
-              if "int" in c: opt.add(e)
-            (opt.maximize if attempt == 0 else opt.minimize)(iterm)
-            if str(opt.check()) == "sat":
-              cand = opt.model().eval(iterm, model_completion=True)
-              if z3.is_int_value(cand): v = cand.as_long()
-          except z3.Z3Exception:
-            v = None
+        if attempt < 2 and z3.is_const(iterm) and iterm.decl().kind() == z3.Z3_OP_UNINTERPRETED:
+          # boundary values first for a declared input (a byte, a count): its largest, then its smallest value - table
+          # look-ups, ranges and slices go wrong at their ends.  decide() below settles whether the value is feasible.
+          rng = self.__dict__.get("int_ranges", {}).get(iterm.decl().name())
+          if rng is not None and rng[1] - rng[0] >= 8: v = rng[1] if attempt == 0 else rng[0]
         if v is None:
           qc = self._qclass([iterm == 0])
           m = self.models.get(qc)
